@@ -38,6 +38,36 @@ CHECKS = {
    text="Full lattice (after pruning numeric duplicates) of sender balance x nonce x price x gas limit x value x recipient kind x data shape x position x coinbase x epoch through ApplyTransaction, Process and InsertChain; exact gasUsed from a Yellow-Paper fee computation in the harness, exact sender/coinbase deltas, post-state equality via RawDump, receipts, and rejection of consensus-invalid transactions with untouched head/state.",
    note="Trusts: the harness's own intrinsic/execution gas arithmetic for 12 fixed programs; one open known finding (pre-EIP-158 failed call to an absent precompile leaves an empty account).",
    ref="4/C06, 2.5"),
+ "C01": dict(cat="exploration", engine="E2-seqx + E4-latx",
+   technique="exhaustive arrival-history exploration of the real block import (linear extensions of a block tree, batching/restart deviations, cache configurations) with read-back comparison and independent root recomputation, plus exhaustive single-field corruption of every block",
+   text="A 14-block tree (8 main-chain blocks with transfers, creation, SSTORE set/clear, LOG0-4, REVERT, out-of-gas, SELFDESTRUCT, an uncle, an empty block; two side branches) is built with core.GenerateChain under the test fork schedule and a mainnet-shaped one; every k-th of the 7425 parent-closed arrival orders (k=29 quick, 2 thorough), every single batching merge and every single restart position on selected orders, under archive / pruning / eager-pruning caches, is imported into a fresh BlockChain; after every import the stored receipts, gas, bloom and post-state must equal the builder's and the tx/receipt/state roots recomputed with the independent refmpt reference must equal the header. Every block x 14 single-field corruptions (alone and inside a batch) must be rejected with head, TD and the full database image unchanged, after which the genuine block still imports.",
+   note="Trusts: fake-seal engine, exported builder as source of expected results (cross-checked by refmpt), account universe of the harness for the independent state root. The miner-built-block clause is not covered (see DESIGN).",
+   ref="4/C01"),
+ "C12": dict(cat="exploration", engine="E4-latx",
+   technique="exhaustive lattice and single-bit-flip enumeration of signed transactions against a reference signer written from the Yellow Paper / EIP-2 / EIP-155",
+   text="7128 base transactions (6 keys x 108 contents x Frontier/Homestead/EIP-155 with 9 chain ids incl. 9-bit and >64-bit V) through Sender/AsMessage/decode, RLP+JSON round trips, every foreign signer, cached sender under every ordered signer pair, every single-field replacement, the full V/R/S boundary lattice incl. the malleated twin, every single-bit flip of the RLP, and TxPool.AddRemote / ApplyTransaction around the Homestead/EIP-155 fork heights.",
+   note="Shares only btcec point recovery, rlp and keccak with the code under test. Open known finding: EIP-155 signer accepts high-S (consensus rule, not repaired).",
+   ref="4/C12"),
+ "C13": dict(cat="exploration", engine="E4-latx + E1-schedx",
+   technique="exhaustive boundary-lattice enumeration of headers and uncle sets against a reference rule checker with a literal difficulty table; batch verification compared with one-by-one verification",
+   text="VerifyHeader over 5 network schedules x parent heights around every fork x parent difficulty x time delta x every single field deviation (and pairs on a reduced context set) inside a synctest bubble (fixed clock for the 15 s rule); VerifyUncles over all ordered candidate lists of length <= 3 from a real block tree in the 2-uncle and 1-uncle epochs; VerifyHeaders on 714 linked batches (n <= 4, first invalid header at every position, pairs, orphans) against sequential verification under several GOMAXPROCS values.",
+   note="refhdr/refdiff are transcribed from the property text and the pinned constants; the batch part runs free (schedule enumeration of the worker pipeline: see DESIGN status).",
+   ref="4/C13"),
+ "C14": dict(cat="exploration", engine="E4-latx",
+   technique="exhaustive enumeration of nonces, straddling difficulties, mix-digest alterations, fork heights and sealer configurations against an independent PoW reference (x/crypto argon2, own ethash and RLP)",
+   text="Version schedule at heights around HF5/HF8/HF9 of all six built-in networks; header/seal-free hashes for 4 versions x 6 header shapes with every single-byte field flip; VerifySeal over nonces x difficulties incl. floor(2^256/h)-1/0/+1, 0, negative; every single-byte mix-digest alteration; light vs full vs reference ethash; sealer with 1-3 threads at difficulties 1..256 for every version.",
+   note="refpow imports nothing from the repository. hash == target exactly cannot be constructed (difficulty is hashed into the header), so <= vs < at the boundary is unobservable.",
+   ref="4/C14"),
+ "C18": dict(cat="exploration", engine="E4-latx",
+   technique="exhaustive enumeration of environment configurations x transports x every registered RPC method (by reflection) x small argument lattices on a real node, observing signing by effect",
+   text="A real node.Node with the aqua service and a keystore (locked + unlocked funded account) on in-proc, IPC, HTTP and WS; one worker process per combination of the opt-in variables (7 quick, 36 thorough); every exported method of every registered API (141 entries, no hand-written list) with ~1200 argument tuples per configuration and plain/batch/alias/subscribe wire variants; a recording wallet, the tx pool and a scan of results for signatures/transactions attributable to keystore keys decide whether a keystore key signed; must not happen on a transport that is not opted in, and must be possible on one that is.",
+   note="Trusts in-package accessors that expose the registered API list and the server's own callback-selection rule. Harness-disrupting methods are called last (thorough) and listed in the evidence.",
+   ref="4/C18"),
+ "C20": dict(cat="exploration", engine="E4-latx",
+   technique="exhaustive single-character alteration of every byte of key files and edit-distance-1 passphrases, against an independent reference reader/writer of the key-file formats",
+   text="7 keys x 4-7 passphrases x v3-scrypt / v3-pbkdf2 / v1 formats composed by the harness with fixed salt and IV plus the repository's vectors; round trips through EncryptKey/DecryptKey and the KeyStore API; every passphrase at edit distance 1; every byte of the file (hex digits, numbers, names, structure) altered by each alternative symbol, through DecryptKey, KeyStore.Unlock and KeyStore.Import: error or the original key and address, never another key, another address or a panic.",
+   note="Passphrases with the same HMAC key (trailing NUL) are the same credential by RFC 2104. One open finding: files without an address member cannot detect a changed IV (format limitation).",
+   ref="4/C20"),
 }
 NOT_YET = {}
 def main():
